@@ -2,6 +2,8 @@ import GodiProofs.Conc.Once
 import GodiProofs.Conc.Cache
 import GodiProofs.Conc.Progress
 import GodiProofs.Conc.Results
+import GodiProofs.Conc.Stale
+import GodiProofs.Conc.Collect
 /-! All invariants of M6 together; they hold in every state reachable from an initial state. -/
 namespace Godi.Conc
 
@@ -13,10 +15,13 @@ structure Inv (s : Sys) : Prop where
   once : OnceInv s
   cache : CacheInv s
   fam : FamSys s
+  stale : StaleInv s
+  collect : CollectInv s
 
 theorem Inv.step {s s' : Sys} (inv : Inv s) (st : Step s s') : Inv s' :=
   ⟨inv.wf.step st, inv.gate.step inv.wf st, inv.lock.step inv.wf st, inv.kids.step st,
-   inv.once.step inv.gate st, inv.cache.step inv.wf inv.gate inv.lock st, inv.fam.step inv.wf st⟩
+   inv.once.step inv.gate st, inv.cache.step inv.wf inv.gate inv.lock st, inv.fam.step inv.wf st,
+   inv.stale.step inv.kids st, inv.collect.step inv.wf inv.gate st⟩
 
 /-- a legal initial thread list: any number of threads, each at the start of one of the API calls -/
 def InitThreads (thr : List Thr) : Prop := ∀ th ∈ thr, th.pc.initial = true ∧ th.start = th.pc
@@ -24,7 +29,7 @@ def InitThreads (thr : List Thr) : Prop := ∀ th ∈ thr, th.pc.initial = true 
 theorem Inv.init {thr : List Thr} (h : InitThreads thr) : Inv (Conc.init thr) :=
   have h1 : ∀ th ∈ thr, th.pc.initial = true := fun th ht => (h th ht).1
   ⟨WfSys.init thr h1, Gate.init thr h1, LockInv.init thr h1, KidInv.init thr h1, OnceInv.init thr h1,
-   CacheInv.init thr h1, FamSys.init thr h⟩
+   CacheInv.init thr h1, FamSys.init thr h, StaleInv.init thr h1, CollectInv.init thr h1⟩
 
 theorem Inv.reach {thr : List Thr} (h : InitThreads thr) {s : Sys} (r : Reach (Conc.init thr) s) : Inv s :=
   Reach.inv (P := Inv) (fun _ _ i st => i.step st) (Inv.init h) r
